@@ -98,6 +98,7 @@ struct Ledger {
     xfer_sent: Vec<Vec<u8>>,
     xfer_got: Vec<Vec<u8>>,
     xfer_err: Option<String>,
+    xfer_err_ns: Option<u64>,
     xfer_ended: bool,
     /// When the streaming request was made / when the peer transmitted the
     /// last message of its response.
@@ -161,6 +162,10 @@ struct Knobs {
     /// transfer of this many messages) shares the connection with the plain
     /// requests. 0 = off.
     xfer_msgs: u32,
+    /// The messages of the streaming response come this far apart (0: a few
+    /// milliseconds) - longer than the plain response timeout, far below
+    /// the streaming one.
+    xfer_gap_ms: u64,
 }
 
 /// Per-server disposition for the composite transports.
@@ -567,7 +572,7 @@ async fn stream_conn_peer(led: Led, kn: Knobs, server: usize, health: Health, ac
                         xfer_final.insert(p.id, framed.clone());
                     }
                     pending.push((at, framed, false));
-                    at += sim::draw("peer.xfer_gap_ms", 12) * 1_000_000;
+                    at += if kn.xfer_gap_ms > 0 { kn.xfer_gap_ms } else { sim::draw("peer.xfer_gap_ms", 12) } * 1_000_000;
                 }
                 led.borrow_mut().xfer_sent = msgs;
                 continue;
@@ -1014,10 +1019,18 @@ async fn run(_tier: Tier) {
         dg_recv_size: *sim::pick("cfg.dg_recv_size", &[2000usize, 512, 100]),
         fin_after: if !faulty && matches!(kind, Kind::Stream | Kind::Multi) && sim::chance("cfg.orderly_fin", 1, 2) { 2 + sim::draw("cfg.fin_after", 3) as u32 } else { 0 },
         xfer_msgs: 0,
+        xfer_gap_ms: 0,
     };
     let mut kn = kn;
     if kn.kind == Kind::Stream && kn.fin_after == 0 && sim::chance("cfg.transfer_on_the_connection", 1, 3) {
         kn.xfer_msgs = 2 + sim::draw("cfg.xfer_msgs", 12) as u32;
+        // A slow transfer now and then: few messages, each a second later
+        // than a plain request would be waited for.
+        if sim::chance("cfg.slow_transfer", 1, 3) {
+            kn.xfer_msgs = 2 + sim::draw("cfg.slow_xfer_msgs", 3) as u32;
+            kn.xfer_gap_ms = kn.st_response_timeout_ms + 1000;
+            sim::stat("probe.slow_streaming_response");
+        }
         // (Not with "close as soon as nothing is outstanding": whether the
         // streaming request is registered before the connection notices that
         // the last plain one was answered is a tie the model cannot call.)
@@ -1213,6 +1226,8 @@ async fn run(_tier: Tier) {
                         break;
                     }
                     Err(e) => {
+                        sim::sync_clock();
+                        led2.borrow_mut().xfer_err_ns = Some(sim::now_ns());
                         led2.borrow_mut().xfer_err = Some(format!("{:?}", e));
                         break;
                     }
@@ -1342,6 +1357,15 @@ fn check(led: &Led, kn: &Knobs, total: usize, finished: bool, connect_faults: &[
     // The streaming request: what the caller got is what the peer sent, in
     // order, from the first message on (id aside: same exchange), and without
     // a stream fault in the run it neither fails nor ends early.
+    // Slow streaming response: the first plain request made while it ran.
+    let one_timer_from: Option<u64> = if kn.xfer_gap_ms > 0 {
+        l.xfer_start_ns.and_then(|t0| {
+            let t_end = l.xfer_err_ns.or(l.xfer_final_tx_ns).unwrap_or(u64::MAX);
+            l.reqs.iter().filter(|r| r.start_ns >= t0 && r.start_ns <= t_end).map(|r| r.start_ns).min()
+        })
+    } else {
+        None
+    };
     if kn.xfer_msgs > 0 {
         // Whatever else goes wrong on the connection - duplicates, wrong ids,
         // delays, closures -, the streaming request is never handed a message
@@ -1356,6 +1380,22 @@ fn check(led: &Led, kn: &Knobs, total: usize, finished: bool, connect_faults: &[
                 }
             }
         }
+        // A slow streaming response is waited for with the streaming
+        // timeout (60 s here), whatever plain requests were outstanding when
+        // it was asked for - as long as no plain request is made while it
+        // runs (that one would bring the connection's one timer down to the
+        // plain timeout: the known finding) and nothing worse than a silent
+        // or slow peer happened on the connection.
+        if kn.xfer_gap_ms > 0 {
+            if let (Some(e), Some(t_err), Some(t0)) = (&l.xfer_err, l.xfer_err_ns, l.xfer_start_ns) {
+                let benign = l.faults.iter().all(|(_, _, w)| matches!(*w, "fault.s.never" | "fault.s.slow" | "fault.s.reorder" | "fault.request_longer_than_a_frame_can_hold" | "fault.get_response_future_dropped" | "fault.request_abandoned" | "fault.streaming_request_dropped_midway"));
+                let plain_meanwhile = l.reqs.iter().any(|r| r.start_ns >= t0 && r.start_ns <= t_err);
+                if e.contains("StreamReadTimeout") && benign && !plain_meanwhile && connect_faults.is_empty() {
+                    sim::violation(P, "completion", "streaming-request-timed-out-between-messages-within-its-own-timeout".to_string(), format!("the streaming request got {} of {} messages ({} ms apart, streaming timeout 60 s, plain timeout {} ms) and then failed with {}; no plain request was made while it ran", l.xfer_got.len(), l.xfer_sent.len(), kn.xfer_gap_ms, kn.st_response_timeout_ms, e));
+                    return;
+                }
+            }
+        }
         for (i, m) in l.xfer_got.iter().enumerate() {
             let same = l.xfer_sent.get(i).is_some_and(|s| s.len() == m.len() && s[2..] == m[2..]);
             if !same && l.stream_faults == 0 {
@@ -1365,7 +1405,14 @@ fn check(led: &Led, kn: &Knobs, total: usize, finished: bool, connect_faults: &[
         }
         if l.stream_faults == 0 && connect_faults.is_empty() {
             if let Some(e) = &l.xfer_err {
-                if !(kn.st_idle_timeout_ms == 0 && e.contains("ConnectionClosed")) {
+                if one_timer_from.is_some() {
+                    // Known finding (one timer per connection): a plain
+                    // request made while the slow streaming response is under
+                    // way brings the timer down to the plain timeout.
+                    if sim::violation(P, "one-timer", "streaming-response-cut-short-by-a-plain-request-made-meanwhile".to_string(), format!("the streaming request ({} ms between messages, streaming timeout 60 s) failed with {} after {} of {} messages: a plain request (timeout {} ms) was made while it ran", kn.xfer_gap_ms, e, l.xfer_got.len(), l.xfer_sent.len(), kn.st_response_timeout_ms)) {
+                        return;
+                    }
+                } else if !(kn.st_idle_timeout_ms == 0 && e.contains("ConnectionClosed")) {
                     sim::violation(P, "unexplained-error", format!("streaming/{}", short_err(e)), format!("the streaming request failed with {} after {} of {} messages although nothing disturbed the connection", e, l.xfer_got.len(), l.xfer_sent.len()));
                     return;
                 }
@@ -1551,6 +1598,16 @@ fn check(led: &Led, kn: &Knobs, total: usize, finished: bool, connect_faults: &[
                     return;
                 }
                 if explained {
+                    continue;
+                }
+                if kn.kind == Kind::Stream && one_timer_from.is_some_and(|t| r.start_ns >= t) {
+                    // Known finding (one timer per connection): the plain
+                    // timeout replaces the streaming one, the time since the
+                    // last message already exceeds it, and the connection
+                    // goes down with everything on it.
+                    if sim::violation(P, "one-timer", "plain-request-fails-while-a-slow-streaming-response-is-in-progress".to_string(), format!("request k={} was made while a slow streaming response was under way on the connection and failed with {}", k, e)) {
+                        return;
+                    }
                     continue;
                 }
                 let idle_err = e.contains("StreamIdleTimeout") || e.contains("ConnectionClosed") || e.contains("StreamReceiveError");
